@@ -555,8 +555,52 @@ fn setup(name: &str) -> Option<Setup> {
                 }
             })
         }
+        // ---------------------------------------------------------------- io_uring (rusl): set-up, and Drop as an operation
+        // `_nosingle`: IORING_FEAT_SINGLE_MMAP hidden from the code (three mappings instead of two)
+        "io_uring_setup" | "io_uring_setup_nosingle" => {
+            kit::hide_single_mmap(name.ends_with("nosingle"));
+            let mut s = simple(move || match rusl::io_uring::setup_io_uring(8, rusl::platform::IoUringParamFlags::empty(), 0, 0) {
+                Ok(ring) => OpOut { out: "ok".into(), handed: Handed::Fds(vec![ring.fd.value()]), keep: Box::new(ring), raw_close: vec![] },
+                Err(e) => nothing(rusl_err_str(&e)),
+            });
+            s.ents = uring_single(name).into();
+            s
+        }
+        "io_uring_drop" | "io_uring_drop_nosingle" => {
+            // the ring exists before the measurement starts; the operation is `drop(ring)`: it owns the ring fd on entry
+            kit::hide_single_mmap(name.ends_with("nosingle"));
+            let s0 = kit::open_fds();
+            kit::begin(vec![], -1);
+            let r = rusl::io_uring::setup_io_uring(8, rusl::platform::IoUringParamFlags::empty(), 0, 0);
+            let _ = kit::end();
+            let ring = r.ok()?;
+            let owned: Vec<i32> = kit::open_fds().into_iter().filter(|x| !s0.contains(x)).collect();
+            let mut s = simple(move || {
+                drop(ring);
+                nothing("ok".into())
+            });
+            s.owned_in = owned;
+            s.ents = uring_single(name).into();
+            s
+        }
         _ => return None,
     })
+}
+
+/// does the code see IORING_FEAT_SINGLE_MMAP for this scenario?  `S` = yes (two mappings), `N` = no (three): what the
+/// running kernel answers to a probe `io_uring_setup`, unless the scenario hides the feature
+fn uring_single(name: &str) -> &'static str {
+    if name.ends_with("nosingle") {
+        return "N";
+    }
+    let mut p = rusl::platform::IoUringParams::new(rusl::platform::IoUringParamFlags::empty(), 0, 0);
+    match rusl::io_uring::io_uring_setup(8, &mut p) {
+        Ok(fd) => {
+            kit::raw_close(fd.value());
+            if p.0.features & 1 != 0 { "S" } else { "N" }
+        }
+        Err(_) => "N",
+    }
 }
 
 fn sockaddr_port(_a: &SocketAddress) -> u16 {
